@@ -335,6 +335,7 @@ func (cs *clientStream) RecvMsg(m interface{}) error {
 		}
 		for _, sh := range cs.statsHandlers {
 			sh.HandleRPC(cs.ctx, &stats.InPayload{
+				Client:   true,
 				RecvTime: time.Now(),
 				Payload:  m,
 				Length:   len(body.GetData()),
@@ -389,6 +390,7 @@ func (cs *clientStream) readLoop() error {
 		now := time.Now()
 		for _, sh := range cs.statsHandlers {
 			end := &stats.End{
+				Client:    true,
 				BeginTime: cs.beginTime,
 				EndTime:   now,
 			}
